@@ -648,6 +648,12 @@ def unit_ratio(fm, to):
         raise ModelGap(f"datetime unit conversion {fm}->{to} (to coarser unit)")
     return a // b
 
+def _is_nat(e):
+    t = z3.simplify(e == INT64_MIN)
+    if z3.is_true(t): return True
+    if z3.is_false(t): return False
+    return ctx().branch(t)
+
 class SymDT:
     """np.datetime64 scalar with symbolic ticks; NaT == INT64_MIN."""
     __slots__ = ("e", "unit")
@@ -702,7 +708,10 @@ class SymDT:
         return NotImplemented
     def __hash__(self): return 0
     def __repr__(self): return f"SymDT({z3.simplify(self.e)},{self.unit})"
-    def item(self): return self
+    def item(self):
+        # datetime64('NaT').item() is None; any other value becomes a date / datetime, for which this scalar stands
+        # (the codecs write both the same way)
+        return None if _is_nat(self.e) else self
 
 class SymTD:
     """np.timedelta64 scalar (concrete or symbolic ticks)."""
@@ -734,7 +743,7 @@ class SymTD:
     def __le__(self, o): return self._c(o, lambda a, b: a <= b)
     def __ge__(self, o): return self._c(o, lambda a, b: a >= b)
     def isnat(self): return SymBool(self.e == INT64_MIN)
-    def item(self): return self
+    def item(self): return None if _is_nat(self.e) else self
     def __repr__(self): return f"SymTD({z3.simplify(self.e)},{self.unit})"
     def __hash__(self): return 0
 
